@@ -218,6 +218,18 @@ func (e *Env) dispatch(st *State, fn *ssa.Function, args []Val, binds []Val, rt 
 		e.dropped[name]++
 		return []Out{{st: st, res: e.resultHavoc(st, rt, "dropped")}}
 	}
+	// static calls of store / iterator methods on tracked handles (e.g. prefix.Store is a concrete type)
+	if len(args) > 0 && (args[0].K == kStore || args[0].K == kIter) && fn.Signature.Recv() != nil {
+		if f, ok := intrinsicsInvoke[fn.Name()]; ok {
+			return f(e, st, args[0], args[1:], rt, c)
+		}
+	}
+	// protobuf-style getters of external message types: GetX() returns field X
+	if fn.Blocks == nil && strings.HasPrefix(fn.Name(), "Get") && fn.Signature.Recv() != nil && fn.Signature.Params().Len() == 0 && len(args) == 1 {
+		if v, ok := e.protoGetter(st, args[0], strings.TrimPrefix(fn.Name(), "Get")); ok {
+			return []Out{{st: st, res: v}}
+		}
+	}
 	if fn.Blocks != nil && (isTeleport(fn) || fn.Parent() != nil && isTeleport(fn.Parent())) {
 		if depth < maxInlineDepth && !e.onStack(fn) {
 			return e.inline(st, fn, args, binds, depth)
@@ -228,6 +240,33 @@ func (e *Env) dispatch(st *State, fn *ssa.Function, args []Val, binds []Val, rt 
 		return e.pureCall(st, name, args, rt)
 	}
 	return e.havocCall(st, name, args, rt)
+}
+
+// protoGetter: value of field `name` of a (pointer to a) struct value.
+func (e *Env) protoGetter(st *State, recv Val, name string) (Val, bool) {
+	v := recv
+	if v.K == kPtr {
+		v = e.load(st, v.Ptr)
+	} else if v.K == kTerm && v.Typ != nil {
+		if _, isP := v.Typ.Underlying().(*types.Pointer); isP {
+			p := e.asPointer(st, v, token.NoPos)
+			v = e.load(st, p)
+		}
+	}
+	if v.Typ == nil {
+		return Val{}, false
+	}
+	stt, ok := v.Typ.Underlying().(*types.Struct)
+	if !ok {
+		return Val{}, false
+	}
+	for i := 0; i < stt.NumFields(); i++ {
+		if stt.Field(i).Name() == name {
+			e.trusted["generated protobuf getters GetX() return field X"]++
+			return e.field(st, v, i), true
+		}
+	}
+	return Val{}, false
 }
 
 func paramNamesOf(fn *ssa.Function) []string {
@@ -419,7 +458,7 @@ func pureExternal(name string) bool {
 		"github.com/ethereum/go-ethereum/common.", "(github.com/ethereum/go-ethereum/common.", "github.com/ethereum/go-ethereum/crypto.", "math/bits.", "regexp.", "(*regexp.",
 		"github.com/ethereum/go-ethereum/common/hexutil.", "(github.com/cosmos/cosmos-sdk/types.AccAddress).", "github.com/cosmos/cosmos-sdk/types.AccAddressFromBech32",
 		"(time.Time).", "(time.Duration).", "sort.SearchInts", "github.com/cosmos/cosmos-sdk/types/errors.", "(*github.com/cosmos/cosmos-sdk/types/errors.Error).",
-		"github.com/tendermint/tendermint/crypto/tmhash.", "github.com/gogo/protobuf/proto.CompactTextString", "github.com/gogo/protobuf/proto.Equal", "github.com/gogo/protobuf/proto.Size"} {
+		"github.com/tendermint/tendermint/crypto/tmhash.", "github.com/gogo/protobuf/proto.CompactTextString", "github.com/cosmos/ibc-go/v3/modules/apps/transfer/types.", "(github.com/cosmos/ibc-go/v3/modules/apps/transfer/types.DenomTrace).", "github.com/cosmos/cosmos-sdk/types.NewIntFromString", "github.com/cosmos/cosmos-sdk/types.NewCoin", "github.com/gogo/protobuf/proto.Equal", "github.com/gogo/protobuf/proto.Size"} {
 		if strings.HasPrefix(name, p) {
 			return true
 		}
